@@ -13,21 +13,32 @@ TEXT = {
             'acknowledgement (partial: the stall after a negative settings delta is proved to exist and is a known finding); '
             'correspondence of the whole connection model with the real library on generated programs with the application '
             'acknowledging every byte.', 'DESIGN.md section 0 and section 7 C05'),
-    'C29': ('Lean 4 theorems: in every state reachable from a fresh connection by receive_data and the calls named next (an '
-            'invariant proved preserved by all of them), each public call except push_stream, initiate_connection and '
-            'initiate_upgrade_connection returns or raises an h2 exception / ValueError having left the output buffer and the '
-            'history of sent frames unchanged (C29_step_partial, C29_send_headers for header tuples that are two byte strings or '
-            'two text strings, C29_every_history), and calls on a stream id that is not in the table raise exactly '
-            'NoSuchStreamError above the high-water mark and StreamClosedError below it (C29_lookup_*). Partial: the three '
-            'calls named above are decided only by the correspondence check and the oracle on real traces.',
+    'C29': ('Lean 4 theorems: in every state reachable from a fresh connection by public calls with well-typed arguments and by '
+            'receive_data on arbitrary bytes (an invariant proved preserved by all of them), EVERY public call - the covered '
+            'calls, send_headers (header tuples two byte strings or two text strings), push_stream, initiate_connection and '
+            'initiate_upgrade_connection (HTTP2-Settings value base64) - returns or raises an h2 exception / ValueError having '
+            'left the output buffer and the history of sent frames unchanged (C29_call, C29_every_call), and calls on a stream '
+            'id that is not in the table raise exactly NoSuchStreamError above the high-water mark and StreamClosedError below '
+            'it (C29_lookup_*). Outside the theorems: ill-typed header tuples and non-base64 header values (TypeError / '
+            'binascii.Error of the Python runtime), decided by the oracle on real traces.',
             'DESIGN.md section 0 and section 7 C29'),
     'C13': ('Lean 4 theorems with HPACK as an abstract recorded context: H2Stream.send_headers and push_stream_in_band, for every '
-            'stream state, header list and configuration, either raise with the context untouched or make exactly one encode '
-            'call (of the normalised list) whose output is exactly what the returned HEADERS/PUSH_PROMISE/CONTINUATION frames '
-            'carry, in fragments that fit the frame size; a peer HEADER_TABLE_SIZE change reaches the encoder once. Partial: the '
-            'connection-level wrappers (priority fields, the frame-size assertion, locally_pushed) and the real HPACK coder are '
+            'stream state, header list and configuration, and H2Connection.send_headers / push_stream as a whole in every '
+            'reachable state, either raise with the context untouched or make exactly one encode call (of the normalised list) '
+            'whose output is exactly what the emitted HEADERS/PUSH_PROMISE/CONTINUATION frames carry, in fragments that fit the '
+            'frame size; a peer HEADER_TABLE_SIZE change reaches the encoder once. The real HPACK coder is outside the model: '
             'decided by the correspondence check and by oracle_C13 (independent hpack.Decoder on the real output).',
             'DESIGN.md section 0 and section 7 C13'),
+    'C01': ('Partial. Lean 4 theorems for the part that does not depend on the two endpoints\' joint state: every frame type as '
+            'the library writes it is parsed back as the same frame object (C01_wire_*, with the header, PRIORITY and SETTINGS '
+            'round trips of C02/C23/C25), a header block that passed outbound normalisation and validation satisfies the inbound '
+            'rule book (Pair.emitted_block_is_accepted), chunking does not matter (C21), a raising call writes nothing in any '
+            'reachable state (C29_every_call), and the two races the pair histories exposed are closed (C04_empty_frame_fits, '
+            'C20_forgotten_headers). NOT proved: the joint invariant of sender and receiver with the frames in flight; that '
+            'each delivery is accepted and the receiver\'s events reproduce the sender\'s calls is decided by oracle_C01 on '
+            'pair histories (random programs and the conversation generator) together with the correspondence check; nine '
+            'known findings (known_findings.json) are printed, anything else is a violation.',
+            'DESIGN.md section 0 and section 7 C01'),
 }
 DEFAULT_NOTE = ('Trusted: Lean kernel; axioms propext/Classical.choice/Quot.sound only (audited each run); the translators for the '
                 'regenerated parts; the differential harness for the hand-modelled parts of connection.py/stream.py/utilities.py/'
